@@ -1,4 +1,5 @@
 import CstModel.Props.C11
+import CstModel.Props.Gen
 open Cst.C11
 #print axioms tokenText_eq_resolve
 #print axioms resolve_built
@@ -8,3 +9,7 @@ open Cst.C11
 #print axioms textEq_symm
 #print axioms textEq_sound
 #print axioms textEq_complete_same_class
+#print axioms Cst.Gen.tok_text_eq_raw
+#print axioms Cst.Gen.tok_text_eq
+#print axioms Cst.Gen.tok_resolve_text
+#print axioms Cst.Gen.tok_resolve_text_model
